@@ -24,6 +24,7 @@ type HProxy struct {
 	Type      string   `json:"type"` // http | tcp
 	MaxFailed int      `json:"max_failed"`
 	Script    []string `json:"script"` // http: per probe ok|500|404|timeout|reset ; tcp: per second up|down
+	TimeoutS  int      `json:"timeout_s,omitempty"` // http: probe timeout in seconds (0 = 1); with 3 the script may hold "slow": a 200 after 1.6 s, later than the interval, within the timeout
 	LateMs    int      `json:"late_ms,omitempty"` // the server answers the first registration only after this long: the verdict may change while the answer is outstanding
 }
 
@@ -40,7 +41,14 @@ func genH(t *rapid.T) HCase {
 		k := rapid.IntRange(5, 9).Draw(t, fmt.Sprintf("p%d/len", i))
 		for j := 0; j < k; j++ {
 			if p.Type == "http" {
-				p.Script = append(p.Script, rapid.SampledFrom([]string{"ok", "ok", "ok", "500", "404", "timeout", "503"}).Draw(t, fmt.Sprintf("p%d/s%d", i, j)))
+				if j == 0 && rapid.IntRange(0, 2).Draw(t, fmt.Sprintf("p%d/longtimeout", i)) == 0 {
+					p.TimeoutS = 3
+				}
+				outcomes := []string{"ok", "ok", "ok", "500", "404", "timeout", "503"}
+				if p.TimeoutS == 3 {
+					outcomes = []string{"ok", "ok", "slow", "slow", "500", "404", "timeout", "503"}
+				}
+				p.Script = append(p.Script, rapid.SampledFrom(outcomes).Draw(t, fmt.Sprintf("p%d/s%d", i, j)))
 			} else {
 				p.Script = append(p.Script, rapid.SampledFrom([]string{"up", "up", "down"}).Draw(t, fmt.Sprintf("p%d/s%d", i, j)))
 			}
@@ -98,7 +106,7 @@ func runH(c HCase) error {
 		pc.Name, pc.Type = fmt.Sprintf("h%d", i), "tcp"
 		pc.LocalIP, pc.LocalPort = "127.0.0.1", port
 		pc.RemotePort = 6100 + i
-		pc.HealthCheck = v1.HealthCheckConfig{Type: p.Type, TimeoutSeconds: 1, MaxFailed: p.MaxFailed, IntervalSeconds: 1, Path: "/health"}
+		pc.HealthCheck = v1.HealthCheckConfig{Type: p.Type, TimeoutSeconds: max(1, p.TimeoutS), MaxFailed: p.MaxFailed, IntervalSeconds: 1, Path: "/health"}
 		pc.Complete("")
 		pcs = append(pcs, pc)
 		if p.Type == "http" {
@@ -129,12 +137,18 @@ func runH(c HCase) error {
 				case "404":
 					rec(false)
 					w.WriteHeader(404)
+				case "slow":
+					// later than the probe interval, well within the configured timeout: a success
+					time.Sleep(1600 * time.Millisecond)
+					rec(true)
+					w.WriteHeader(200)
 				case "timeout":
-					// the client gives up after its 1 s timeout: that is when this probe counts as failed
+					// the client gives up after its timeout: that is when this probe counts as failed
+					limit := time.Duration(max(1, p.TimeoutS)) * time.Second
 					mu.Lock()
-					probes[i] = append(probes[i], probe{st, st + time.Second, false})
+					probes[i] = append(probes[i], probe{st, st + limit, false})
 					mu.Unlock()
-					time.Sleep(1300 * time.Millisecond)
+					time.Sleep(limit + 300*time.Millisecond)
 					w.WriteHeader(200)
 				case "503":
 					// (a connection reset is not used as an outcome: Go's HTTP client transparently
